@@ -162,6 +162,10 @@ def _proc_cfgs(tier):
                     if tier == "quick" and m == 3 and variant["W"] == "receptor" and bs not in (2, "full"):
                         continue
                     out.append(dict(variant, proc=proc, nf=2, ns=2, m=m, bs=bs, lb="none", ub="fin", K="none"))
+            # per-sample weights (rows carry their own weights)
+            if proc != "excitation" and m >= 2:
+                for bs in (1, m, m + 1):
+                    out.append(dict(W="sample", baseline="none", proc=proc, nf=2, ns=2, m=m, bs=bs, lb="none", ub="fin", K="none"))
     return out
 
 
